@@ -200,6 +200,31 @@ class Types:
         self._ret[key] = t
         return t
 
+    def ret_ctx(self, fi: FuncInfo, argt: Dict[str, T], outer: Optional[Dict[str, T]] = None) -> T:
+        """Return type of fi *at one call site*: unannotated parameters take the types of the arguments given there (and, for a
+        helper nested in a function, free names the types they have in the enclosing function).  Private helpers and nested defs
+        carry no annotations; what they return depends on what they are given."""
+        try:
+            key = ("<ctx>", fi.module.name + ":" + fi.qualname + ":" + repr(sorted(argt.items())) + repr(sorted((outer or {}).items())))
+        except Exception:
+            return UNK
+        if key in self._ret:
+            return self._ret[key]
+        if key in self._busy or len(self._busy) > 12:
+            return UNK
+        self._busy.add(key)
+        try:
+            ft = FuncTypes(self, fi, preset=argt, outer=outer)
+            r = None
+            for n in astq.walk_no_nested(fi.node):
+                if isinstance(n, ast.Return) and n.value is not None:
+                    r = join(r, ft._refine(n.value, ft.of(n.value)))
+            t = r if r is not None else UNK
+        finally:
+            self._busy.discard(key)
+        self._ret[key] = t
+        return t
+
     # ---- hash stability --------------------------------------------------------------------
     def stable(self, t: T, seen: Tuple = ()) -> Optional[bool]:
         """True: iteration order of a set of t does not depend on PYTHONHASHSEED; False: it does; None: unknown."""
@@ -258,6 +283,26 @@ class Types:
         return out
 
 
+def _has_bottom(t: T) -> bool:
+    if t is None:
+        return True
+    if isinstance(t, tuple) and t[0] != "cls":
+        return any(_has_bottom(x) for x in (t[1] if t[0] == "tuple" else t[1:]))
+    return False
+
+
+def _has_unknown(t: T) -> bool:
+    if t is None or t == UNK:
+        return True
+    if isinstance(t, tuple):
+        if t[0] == "cls":
+            return False
+        if t[0] == "tuple":
+            return any(_has_unknown(x) for x in t[1])
+        return any(_has_unknown(x) for x in t[1:])
+    return False
+
+
 def _top(t: T) -> T:
     if t is None:
         return UNK
@@ -276,24 +321,27 @@ _BUILTIN_RET = {"len": "int", "int": "int", "float": "float", "str": "str", "boo
 class FuncTypes:
     """Types of expressions inside one function."""
 
-    def __init__(self, types: Types, fi: FuncInfo):
+    def __init__(self, types: Types, fi: FuncInfo, preset: Optional[Dict[str, T]] = None, outer: Optional[Dict[str, T]] = None):
         self.ty, self.fi = types, fi
         self.repo = types.repo
         self.env: Dict[str, T] = {}
         self.adds: Dict[str, T] = {}  # textual container expr -> joined type of elements added
         self.keys: Dict[str, T] = {}  # dict name -> joined type of the keys it is subscripted with
+        self.vals: Dict[str, T] = {}  # dict name (created in this function) -> joined type of the values stored by `name[k] = v`
+        self.preset = dict(preset or {})  # call-site types of unannotated parameters (Types.ret_ctx)
+        self.outer = dict(outer or {})  # types of the enclosing function's names (helper nested in a function)
         self._busy: set = set()
         self._params()
         # least fixpoint: unbound names are bottom (None) while iterating, unknown (top) afterwards
         self._fix = True
         for _ in range(8):
-            before = (dict(self.env), dict(self.adds), dict(self.keys))
+            before = (dict(self.env), dict(self.adds), dict(self.keys), dict(self.vals))
             self._scan()
-            if (self.env, self.adds, self.keys) == before:
+            if (self.env, self.adds, self.keys, self.vals) == before:
                 break
         self._fix = False
         self._rt_cache = {}
-        for d in (self.env, self.adds, self.keys):
+        for d in (self.env, self.adds, self.keys, self.vals):
             for k in list(d):
                 d[k] = _top(d[k])
 
@@ -303,7 +351,10 @@ class FuncTypes:
             if p.arg == "self" and self.fi.cls is not None:
                 self.env["self"] = ("cls", self.fi.module.name, self.fi.cls.name)
             else:
-                self.env[p.arg] = self.ty.ann(self.fi.module.name, p.annotation)
+                t = self.ty.ann(self.fi.module.name, p.annotation)
+                if t == UNK and p.arg in self.preset and self.preset[p.arg] is not None:
+                    t = self.preset[p.arg]
+                self.env[p.arg] = t
 
     def _bind(self, t: ast.AST, ty: T) -> None:
         if isinstance(t, ast.Name):
@@ -329,6 +380,8 @@ class FuncTypes:
                 ty = self.of(n.value)
                 for t in n.targets:
                     self._bind(t, ty)
+                    if isinstance(t, ast.Subscript) and isinstance(t.value, ast.Name) and not isinstance(t.slice, ast.Slice) and self._local_dict(t.value.id):
+                        self.vals[t.value.id] = join(self.vals.get(t.value.id), ty)
             elif isinstance(n, ast.AnnAssign):
                 ty = self.ty.ann(self.fi.module.name, n.annotation)
                 if ty == UNK and n.value is not None:
@@ -348,11 +401,48 @@ class FuncTypes:
             elif isinstance(n, ast.Call) and isinstance(n.func, ast.Attribute) and n.func.attr in ("update", "extend") and n.args:
                 key = ast.unparse(n.func.value)
                 self.adds[key] = join(self.adds.get(key), elem(self.of(n.args[0])))
-        for n in astq.walk_no_nested(self.fi.node):
+
+        def visit(n: ast.AST, top: bool = False) -> None:
+            if not top and isinstance(n, (ast.FunctionDef, ast.AsyncFunctionDef, ast.ClassDef, ast.Lambda)):
+                return
+            if isinstance(n, (ast.ListComp, ast.SetComp, ast.GeneratorExp, ast.DictComp)):
+                # the variables of a comprehension exist inside it only: subscripts in there are typed with them bound
+                saved = dict(self.env)
+                try:
+                    for g in n.generators:
+                        visit(g.iter)
+                        self._bind(g.target, elem(self.of(g.iter)))
+                        for c in g.ifs:
+                            visit(c)
+                    for c in ([n.key, n.value] if isinstance(n, ast.DictComp) else [n.elt]):
+                        visit(c)
+                finally:
+                    self.env = saved
+                return
             if isinstance(n, ast.Subscript) and not isinstance(n.slice, ast.Slice):
                 bt = self.env.get(n.value.id) if isinstance(n.value, ast.Name) else None
                 if isinstance(bt, tuple) and bt[0] == "dict":
                     self.keys[n.value.id] = join(self.keys.get(n.value.id), self.of(n.slice))
+            for c in ast.iter_child_nodes(n):
+                visit(c)
+
+        visit(self.fi.node, top=True)
+
+    def _local_dict(self, name: str) -> bool:
+        """`name` is a dict created in this function and bound only by plain assignments of new dicts ({}, {k: v ...}, dict(...),
+        dict.fromkeys(...), defaultdict(...), a dict comprehension): everything it holds was put in here."""
+        if name in [p.arg for p in self.fi.node.args.posonlyargs + self.fi.node.args.args + self.fi.node.args.kwonlyargs]:
+            return False
+        defs = astq.assignments(self.fi.node, name)
+        if not defs:
+            return False
+        for st, v in defs:
+            if not isinstance(st, (ast.Assign, ast.AnnAssign)):
+                return False
+            ok = isinstance(v, (ast.Dict, ast.DictComp)) or (isinstance(v, ast.Call) and (astq.dotted(v.func) or "") in ("dict", "defaultdict", "collections.defaultdict", "OrderedDict", "collections.OrderedDict", "dict.fromkeys"))
+            if not ok:
+                return False
+        return True
 
     def _refine(self, e: ast.AST, t: T) -> T:
         """A container built empty gets its element type from what is added to it."""
@@ -361,6 +451,9 @@ class FuncTypes:
             k, v = t[1], t[2]
             if k in (UNK, None) and e.id in self.keys:
                 k = self.keys[e.id]
+            if e.id in self.vals and not (isinstance(v, tuple) and v[0] in ("set", "list")):
+                if v in (UNK, None) and not self._has_literal_values(e.id):
+                    v = self.vals[e.id]  # built empty: the values are what is stored
             if isinstance(v, tuple) and v[0] in ("set", "list") and v[1] in (UNK, None):
                 a = None
                 for k2, x in self.adds.items():
@@ -381,6 +474,17 @@ class FuncTypes:
             if a is not None:
                 return (t[0], a)
         return t
+
+    def _has_literal_values(self, name: str) -> bool:
+        """some defining expression of the dict `name` already supplies values (their type is part of the declared type)"""
+        for st, v in astq.assignments(self.fi.node, name):
+            if isinstance(v, ast.Dict) and v.values:
+                return True
+            if isinstance(v, ast.DictComp):
+                return True
+            if isinstance(v, ast.Call) and (v.args or v.keywords) and (astq.dotted(v.func) or "") in ("dict", "dict.fromkeys", "OrderedDict"):
+                return True
+        return False
 
     def of(self, e: Optional[ast.AST]) -> T:
         t = self._of(e)
@@ -550,6 +654,8 @@ class FuncTypes:
                 return "bool"
             if self._fix and astq.assignments(self.fi.node, e.id):
                 return None  # bound later in the fixpoint iteration
+            if e.id in self.outer:
+                return self.outer[e.id]
             return self.ty.const_type(self.fi.module.name, e.id)
         if isinstance(e, ast.Tuple):
             return ("tuple", tuple(self.of(x) for x in e.elts))
@@ -629,6 +735,40 @@ class FuncTypes:
             return UNK
         return UNK
 
+    def _ret_at(self, fi: FuncInfo, c: ast.Call, offset: Optional[int] = None, outer: Optional[Dict[str, T]] = None) -> T:
+        """Return type of the package function fi for this call: the declared / inferred type, and when that leaves something unknown
+        and fi has unannotated parameters, the type inferred with the parameters bound to this call's argument types."""
+        r = self.ty.ret(fi) if outer is None else UNK
+        if not _has_unknown(r):
+            return r
+        a = fi.node.args
+        params = [p for p in a.posonlyargs + a.args]
+        if offset is None:
+            offset = 1 if (fi.cls is not None and params and params[0].arg in ("self", "cls") and "staticmethod" not in fi.decorators) else 0
+        params = params[offset:]
+        if not any(p.annotation is None for p in params + a.kwonlyargs) and outer is None:
+            return r
+        argt: Dict[str, T] = {}
+        for p, x in zip(params, c.args):
+            if isinstance(x, ast.Starred):
+                break
+            argt[p.arg] = self.of(x)
+        for kw in c.keywords:
+            if kw.arg:
+                argt[kw.arg] = self.of(kw.value)
+        if self._fix and any(_has_bottom(v) for v in argt.values()):
+            return None  # an argument is not typed yet in this round of the fixpoint: bottom, not unknown
+        argt = {k: v for k, v in argt.items() if v is not None}
+        r2 = self.ty.ret_ctx(fi, argt, outer)
+        return r2 if (r == UNK or not _has_unknown(r2)) else r
+
+    def _nested_def(self, name: str) -> Optional[FuncInfo]:
+        for n in ast.walk(self.fi.node):
+            if isinstance(n, ast.FunctionDef) and n is not self.fi.node and n.name == name:
+                q = f"{self.fi.qualname}.<locals>.{name}"
+                return self.fi.module.funcs.get(q) or FuncInfo(self.fi.module, q, n, None)
+        return None
+
     def _call(self, c: ast.Call) -> T:
         f = c.func
         name = astq.callee_name(c)
@@ -680,16 +820,34 @@ class FuncTypes:
                     return ("tuple", tuple(self.of(a) for a in args))
             except Exception:
                 pass
+            nd = self._nested_def(name)
+            if nd is not None:
+                outer = {k: v for k, v in {**self.outer, **self.env}.items() if v is not None}
+                return self._ret_at(nd, c, 0, outer)
             try:
                 hm, hn = self.repo.const_home(self.fi.module.name, name)
                 fi = self.repo.modules[hm].funcs.get(hn)
                 if fi is not None:
-                    return self.ty.ret(fi)
+                    return self._ret_at(fi, c)
             except Exception:
                 pass
             return UNK
         if isinstance(f, ast.Attribute):
             d = astq.dotted(f)
+            if d in ("itertools.filterfalse", "itertools.takewhile", "itertools.dropwhile") and len(args) == 2:
+                return ("list", elem(self.of(args[1])))
+            if d in ("itertools.islice", "itertools.accumulate", "itertools.cycle", "itertools.tee") and args:
+                return ("list", elem(self.of(args[0])))
+            if d == "itertools.count" and all(self.of(a) == "int" for a in args):
+                return ("list", "int")
+            if d == "itertools.repeat" and args:
+                return ("list", self.of(args[0]))
+            if d == "itertools.groupby" and args:
+                return ("list", ("tuple", (UNK, ("list", elem(self.of(args[0]))))))
+            if d in ("itertools.zip_longest",):
+                return ("list", ("tuple", tuple(elem(self.of(a)) for a in args)))
+            if d == "itertools.pairwise" and args:
+                return ("list", ("tuple", (elem(self.of(args[0])), elem(self.of(args[0])))))
             if d in ("itertools.combinations", "itertools.permutations"):
                 return ("list", ("tupleof", elem(self.of(args[0])) if args else UNK))
             if d == "itertools.product":
@@ -749,7 +907,7 @@ class FuncTypes:
                     # repo method
                     fi = self.repo.modules[bt[1]].funcs.get(f"{bt[2]}.{name}")
                     if fi is not None:
-                        return self.ty.ret(fi)
+                        return self._ret_at(fi, c)
             if bt == "str":
                 if name in ("split", "splitlines"):
                     return ("list", "str")
@@ -765,7 +923,7 @@ class FuncTypes:
                 if ct != UNK:
                     fi = self.repo.modules[ct[1]].funcs.get(f"{ct[2]}.{name}")
                     if fi is not None:
-                        r = self.ty.ret(fi)
+                        r = self._ret_at(fi, c)
                         return r if r != UNK else (ct if "staticmethod" in fi.decorators and name.startswith("from_") else UNK)
             return UNK
         return UNK
